@@ -38,7 +38,8 @@ def gen(tier, rng):
     for ti, ty in enumerate(TYPES):
         for i, a in enumerate(valid):
             for j, b in enumerate(valid):
-                if (i * 31 + j * 7 + ti) % (5 if tier == "quick" else 1) == 0 or a == b:
+                # all pairs of different spellings of the same parsed URL are always included
+                if (i * 31 + j * 7 + ti) % (5 if tier == "quick" else 1) == 0 or a == b or info[a][0] == info[b][0]:
                     out.append(("URLP %s %s %s" % (ty, C.tb(a), C.tb(b)), "pair"))
     return out
 
@@ -49,7 +50,7 @@ def run(tier, rng, C):
     stats["rule"] = ("7 URL types x 30 valid strings whose canonical form differs from the input (case, default port, missing path, dot segments, IDN, percent-case, tab/space trimming, "
                      "backslash, numeric hosts, opaque schemes) + 17 invalid strings (relative, empty, garbage, bad port/host) [+ random strings over URL punctuation, thorough]; "
                      "observation: Display, Deref, serialised text, parsed form, deserialisation of the serialised form (ok + parsed form + equality), from_url; "
-                     "pairs of valid strings: ==, cmp both ways, partial_cmp, hash equality; non-trivial = the string is a valid URL")
+                     "deserialisation through three entry points (borrowed text, owned serde_json::Value, reader); pairs of valid strings: ==, cmp both ways, partial_cmp, hash equality, clone and clone_from (directly, through Option and Vec); non-trivial = the string is a valid URL")
     return v, stats
 
 
